@@ -1174,7 +1174,7 @@ impl LiteralValue {
             fn fmt(&self, f: &mut std::fmt::Formatter<'_>) -> std::fmt::Result {
                 match self.0 {
                     LiteralValue::Boolean(v) => write!(f, "{}", v),
-                    LiteralValue::String(v) => write!(f, "\"{}\"", v),
+                    LiteralValue::String(v) => write!(f, "{:?}", v),
                     LiteralValue::Integer(v) => write!(f, "{}", v),
                     LiteralValue::OctetString(v) => {
                         write!(f, "[")?;
